@@ -40,6 +40,8 @@ func checkC12(c *Ctx) {
 	c.terminalTables()
 	c.releaseLoopContract("C12")
 	c.queueIndexRules()
+	c.growRules()
+	c.occupancyByCount()
 	c.ackUpdatesOwnSlot()
 	c.registerBeforeSend()
 	c.autoPacketIDNonZero()
